@@ -5,6 +5,7 @@ package main
 import (
 	"fmt"
 	"go/token"
+	"os"
 	"go/types"
 	"regexp"
 	"sort"
@@ -414,6 +415,52 @@ func ruleSIB3(w *World) []Ob {
 			}
 		})
 	}
+	// rows written piece by piece (branch, blank, name, newline as separate writes, directly or through a helper):
+	// the concatenation along every path up to the children loop must be the row term
+	for _, fn := range libFuncs(d) {
+		if rowWriters[fn] || fn.Blocks == nil {
+			continue
+		}
+		var cur *ssa.Parameter
+		for _, prm := range fn.Params {
+			if isNodePtr(prm.Type()) && cur == nil {
+				cur = prm
+			}
+		}
+		if cur == nil {
+			continue
+		}
+		seq, any := writeSequences(d, fn, cur)
+		if !any {
+			continue
+		}
+		var rows []vcase
+		for _, c := range seq {
+			if strings.Contains(c.term, "name(n)") {
+				rows = append(rows, c)
+			}
+		}
+		if len(rows) == 0 {
+			continue
+		}
+		groups := byAtom(rows, "isRoot(n)")
+		var problems []string
+		if len(groups["true"]) != 1 || groups["true"][0] != wantRootLine {
+			problems = append(problems, fmt.Sprintf("root line is %v, expected %s", groups["true"], wantRootLine))
+		}
+		if len(groups["false"]) != 1 || groups["false"][0] != wantChildLine {
+			problems = append(problems, fmt.Sprintf("non-root line is %v, expected %s", groups["false"], wantChildLine))
+		}
+		if len(groups["*"]) > 0 {
+			problems = append(problems, fmt.Sprintf("a line %v is written regardless of isRoot", groups["*"]))
+		}
+		if len(problems) > 0 {
+			l.bad(d.FuncID(fn), "row written per node", d.Pos(fn.Pos()), strings.Join(problems, "; ")+" (pieces written along each path, concatenated)", "row")
+		} else {
+			rowWriters[fn] = true
+			l.ok(d.FuncID(fn), "row written per node", d.Pos(fn.Pos()), "written in pieces: isRoot ? name+\"\\n\" : branch+\" \"+name+\"\\n\"", true, "row")
+		}
+	}
 	for _, name := range []string{"(*gtree.defaultSpreaderSimple).spreadBranch", "(*gtree.defaultGrowSpreaderSimple).assembleAndPrint"} {
 		fn := d.Func(name)
 		if fn == nil {
@@ -720,8 +767,10 @@ func ruleSIB3(w *World) []Ob {
 		})
 		if n == 1 && got == acc[m] {
 			l.ok(d.FuncID(fn), "accessor", d.Pos(fn.Pos()), got, true, "accessor")
+		} else if terms := nonNilCaseTerms(d, fn); len(terms) == 1 && terms[0] == acc[m] {
+			l.ok(d.FuncID(fn), "accessor", d.Pos(fn.Pos()), acc[m]+" wherever the walker node and its node are not nil (zero value otherwise)", true, "accessor")
 		} else {
-			l.bad(d.FuncID(fn), "accessor", d.Pos(fn.Pos()), fmt.Sprintf("returns %s, expected %s", got, acc[m]), "accessor")
+			l.bad(d.FuncID(fn), "accessor", d.Pos(fn.Pos()), fmt.Sprintf("returns %s (cases without nil guards: %v), expected %s", got, nonNilCaseTerms(d, fn), acc[m]), "accessor")
 		}
 	}
 	if fn := d.Func("(*gtree.WalkerNode).Row"); fn != nil {
@@ -760,7 +809,39 @@ func ruleSIB3(w *World) []Ob {
 		} else if n == 1 {
 			got, _ = rowCases(d, rv, firstInstr(fn))
 		}
-		if why := checkRow(got, "name(n)", false); why != "" {
+		why := checkRow(got, "name(n)", false)
+		if why != "" {
+			// the same through the case engine, ignoring the nil-guard cases
+			ev := newCaseEval(d, nil)
+			var all []vcase
+			allInstrs(fn, func(in ssa.Instruction) {
+				if r, ok := in.(*ssa.Return); ok {
+					all = append(all, ev.argCases([]ssa.Value{rr(r)[0]}, ev.guardConds(r.Block()))...)
+				}
+			})
+			var live []vcase
+			for _, c := range all {
+				if os.Getenv("GTCHECK_DEBUG") != "" {
+					fmt.Fprintf(os.Stderr, "DEBUG Row: %v -> %s\n", c.conds, c.term)
+				}
+				if !hasNilGuard(c) {
+					live = append(live, c)
+				}
+			}
+			atom := "isRoot(origin(wn))"
+			for _, c := range live {
+				for a := range c.conds {
+					if a != atom && strings.Contains(a, "isRoot(origin(wn))") {
+						atom = a // the test reached through a nil-guarding accessor: same decision on the live paths
+					}
+				}
+			}
+			g := byAtom(live, atom)
+			if len(g["true"]) == 1 && g["true"][0] == "name(origin(wn))" && len(g["false"]) == 1 && g["false"][0] == `cat(branch(origin(wn))," ",name(origin(wn)))` && len(g["*"]) == 0 {
+				why = ""
+			}
+		}
+		if why != "" {
 			l.bad(d.FuncID(fn), "Row = Branch + space + Name (Name for a root)", d.Pos(fn.Pos()), why, "accessor")
 		} else {
 			l.ok(d.FuncID(fn), "Row = Branch + space + Name (Name for a root)", d.Pos(fn.Pos()), "isRoot ? name : branch+\" \"+name", true, "accessor")
@@ -1656,6 +1737,14 @@ func ruleSIB5(w *World) []Ob {
 								if op != nil && *op != nil && globalName(*op) == "errNilStack" {
 									sentinel = true
 								}
+								// any error proven non-nil that is handed over here rejects the document just as well
+								// (a richer error wrapping the sentinel, say)
+								if op != nil && *op != nil && isErrorType((*op).Type()) && nc.nonNil(*op, in, 0) {
+									switch in.(type) {
+									case *ssa.Return, *ssa.Send, ssa.CallInstruction:
+										sentinel = true
+									}
+								}
 							}
 						}
 					}
@@ -1741,6 +1830,11 @@ func ruleSIB5(w *World) []Ob {
 				}
 			}
 			perBlock := false
+			if c, ok := resolve(scan.Common().Args[0]).(*ssa.Call); ok && calleeFullName(c.Common()) != "bufio.NewScanner" && inLoop(c) {
+				if f := c.Common().StaticCallee(); f != nil && p.InModule(f) {
+					perBlock = true // a scanner built per block by a module helper
+				}
+			}
 			if c, ok := resolve(scan.Common().Args[0]).(*ssa.Call); ok && calleeFullName(c.Common()) == "bufio.NewScanner" {
 				if inLoop(c) {
 					perBlock = true // one root block per scanner (the splitter guarantees it)
@@ -1853,4 +1947,35 @@ func phiWeb(fn *ssa.Function, v ssa.Value) map[ssa.Value]bool {
 		}
 	}
 	return web
+}
+
+// hasNilGuard: the case lies on the side of a test where something is nil (a defensive early return).
+func hasNilGuard(c vcase) bool {
+	for a, pol := range c.conds {
+		if strings.Contains(a, "==nil)") && pol {
+			return true
+		}
+	}
+	return false
+}
+
+// nonNilCaseTerms: the distinct terms a function returns on the paths where no nil guard fired.
+func nonNilCaseTerms(p *Prog, fn *ssa.Function) []string {
+	ev := newCaseEval(p, nil)
+	set := map[string]bool{}
+	allInstrs(fn, func(in ssa.Instruction) {
+		r, ok := in.(*ssa.Return)
+		if !ok || len(rr(r)) != 1 {
+			return
+		}
+		for _, c := range ev.argCases([]ssa.Value{rr(r)[0]}, ev.guardConds(r.Block())) {
+			if os.Getenv("GTCHECK_DEBUG") != "" {
+				fmt.Fprintf(os.Stderr, "DEBUG %s: %v -> %s\n", p.FuncID(fn), c.conds, c.term)
+			}
+			if !hasNilGuard(c) {
+				set[strings.ReplaceAll(c.term, "&", "")] = true
+			}
+		}
+	})
+	return sortedKeys(set)
 }
